@@ -31,6 +31,7 @@ import (
 	"encoding/json"
 	"errors"
 	"fmt"
+	"io"
 	"math/big"
 	"os"
 	"path/filepath"
@@ -50,6 +51,7 @@ import (
 	"github.com/nuts-foundation/nuts-node/crypto/hash"
 	"github.com/nuts-foundation/nuts-node/storage"
 	"github.com/nuts-foundation/nuts-node/vdr/resolver"
+	"github.com/sirupsen/logrus"
 	"pgregory.net/rapid"
 	"verif.local/h"
 )
@@ -574,6 +576,10 @@ type c10Env struct {
 	hasFork  bool
 	hasDup   bool
 	hasOwn   bool
+	// used by the fault unit (zz_verif_C10_fault_test.go)
+	wrap  func(stoabs.KVStore) stoabs.KVStore // wraps the bbolt store before the didstore gets it
+	tag   string                              // replaces the dag-order / any-order tag of the model signatures
+	quiet bool                                // no storage log lines (every injected rollback is logged otherwise)
 }
 
 var c10Epoch = time.Date(2023, 3, 1, 12, 0, 0, 0, time.UTC).Unix()
@@ -819,14 +825,30 @@ func (e *c10Env) orders() [][]int {
 
 func (e *c10Env) open(path string) (*store, stoabs.KVStore) {
 	// the lock timeout (default 1 s) only matters on an overloaded machine: never let it decide a case
-	kv, err := bbolt.CreateBBoltStore(path, stoabs.WithNoSync(), stoabs.WithLockAcquireTimeout(5*time.Minute))
+	opts := []stoabs.Option{stoabs.WithNoSync(), stoabs.WithLockAcquireTimeout(5 * time.Minute)}
+	if e.quiet {
+		l := logrus.New()
+		l.SetOutput(io.Discard)
+		opts = append(opts, stoabs.WithLogger(l))
+	}
+	kv, err := bbolt.CreateBBoltStore(path, opts...)
 	e.x.NoErr(err, "open bbolt store")
+	if e.wrap != nil {
+		kv = e.wrap(kv)
+	}
 	s := New(&storage.StaticKVStoreProvider{Store: kv}).(*store)
 	if err := s.Configure(core.ServerConfig{}); err != nil {
 		_ = kv.Close(context.Background())
 		e.x.Fatalf("Configure: %v", err)
 	}
 	return s, kv
+}
+
+func (e *c10Env) tagOf(causal bool) string {
+	if e.tag != "" {
+		return e.tag
+	}
+	return c10Tag(causal)
 }
 
 // c10Ans is one answer of Resolve.
@@ -1216,10 +1238,10 @@ func (e *c10Env) stepCounts(s *store, arrived map[int]bool, causal bool, seq []i
 	dc, err := s.DocumentCount()
 	e.x.NoErr(err, "DocumentCount")
 	if int(cc) != wantC {
-		e.violate("c10:model:conflicted-count:"+c10Tag(causal), "after arrival %d of order %v: ConflictedCount()=%d, but %d DID(s) have more than one unreferenced transaction", pos, seq, cc, wantC)
+		e.violate("c10:model:conflicted-count:"+e.tagOf(causal), "after arrival %d of order %v: ConflictedCount()=%d, but %d DID(s) have more than one unreferenced transaction", pos, seq, cc, wantC)
 	}
 	if int(dc) != wantD {
-		e.violate("c10:model:document-count:"+c10Tag(causal), "after arrival %d of order %v: DocumentCount()=%d, but transactions of %d DID(s) arrived", pos, seq, dc, wantD)
+		e.violate("c10:model:document-count:"+e.tagOf(causal), "after arrival %d of order %v: DocumentCount()=%d, but transactions of %d DID(s) arrived", pos, seq, dc, wantD)
 	}
 }
 
@@ -1268,7 +1290,7 @@ var c10MemberOrder = []string{"controller", "verificationMethod", "authenticatio
 
 // stepModel: the statements of the property that do not need a second run.
 func (e *c10Env) stepModel(s *store, arrived map[int]bool, causal bool, seq []int, pos int) {
-	tag := c10Tag(causal)
+	tag := e.tagOf(causal)
 	where := fmt.Sprintf("after arrival %d of order %v", pos, seq)
 	for _, d := range e.dids {
 		heads, any, deact := e.headsOfArrived(arrived, d)
